@@ -14,6 +14,12 @@
  *                     its fields cleared; item_count decreases by one;
  *                     nothing else is handed out or lost
  *   C09.dequeue.empty item_count == 0: NULL, nothing touched, no lock
+ *   C09.dequeue.null_only_on_failure
+ *                     with items outstanding the call comes back empty-handed
+ *                     only if the pool status is non-zero, and then nothing
+ *                     was dequeued, recycled or counted (accepted so that a
+ *                     repair of C09.no_stuck - give up instead of sleeping
+ *                     forever - is not a violation)
  *   C09.no_stuck      when the consumer goes to sleep (on done_cond), the
  *                     ticket it waits for is in a worker's hands, or it is
  *                     queued AND the pool status is 0 so that a worker will
@@ -27,7 +33,7 @@ static size_t g_ic0, g_sl0, g_nt0, g_ndt0;
 static work_item_t *g_s0, *g_s0next, *g_r0;
 static size_t g_s0_ticket;
 static void *g_s0_data;
-static int g_released, g_slept;
+static int g_released, g_slept, g_gave_up;
 
 static void c09_on_release(int is_wait, pthread_cond_t *cond)
 {
@@ -62,6 +68,16 @@ static void c09_on_release(int is_wait, pthread_cond_t *cond)
 			     pool->next_dequeue_ticket == g_ndt0, "C09.frame");
 		if (s_d[0] != NULL)
 			VERIF_ASSERT(s_d[0]->next == s_b.d[0].next, "C09.frame");
+	} else if (pool->next_dequeue_ticket == g_ndt0) {
+		g_released += 1;
+		g_gave_up = 1;
+		/* leaves empty-handed: only because the pool has failed, and
+		 * then without having touched anything */
+		VERIF_ASSERT(pool->status != 0, "C09.dequeue.null_only_on_failure");
+		VERIF_ASSERT(pool->done == s_b.done, "C09.dequeue.null_only_on_failure");
+		if (s_d[0] != NULL)
+			VERIF_ASSERT(s_d[0]->next == s_b.d[0].next,
+				     "C09.dequeue.null_only_on_failure");
 	} else {
 		g_released += 1;
 		/* leaves with exactly the awaited item */
@@ -98,8 +114,18 @@ void harness(void)
 		VERIF_ASSERT(ptr == NULL && g_locks == 0 &&
 			     pool->item_count == 0 && pool->recycle == g_r0 &&
 			     pool->safe_done == g_s0, "C09.dequeue.empty");
+	} else if (g_gave_up) {
+		VERIF_ASSERT(ptr == NULL && g_s0 == NULL && g_locks == 1,
+			     "C09.dequeue.null_only_on_failure");
+		VERIF_ASSERT(pool->item_count == g_ic0 && pool->recycle == g_r0 &&
+			     pool->safe_done == NULL &&
+			     pool->next_dequeue_ticket == g_ndt0,
+			     "C09.dequeue.null_only_on_failure");
+		c09_check_main_inv();
 	} else {
 		got = pool->recycle;
+		VERIF_ASSERT(ptr != NULL || g_s0 != NULL || s_b.d[0].data == NULL,
+			     "C09.dequeue.null_only_on_failure");
 		VERIF_ASSERT(got != NULL && got->next == g_r0, "C09.once");
 		VERIF_ASSERT(got->ticket_number == 0 && got->data == NULL,
 			     "C09.once");
